@@ -132,7 +132,7 @@ from . import lemmas  # noqa
 # ---- remaining functions: get_spikes_non_empty, class methods, reconcile, thresholds, merge
 from ..contracts import misc as MI  # noqa
 
-kernel('nonempty.B', MI.NonEmpty(), 'B', sizes_quick=[(0,), (1,), (2,)], sizes_thorough=[(0,), (1,), (2,), (3,)], bound_text='0..3 spikes; loop-free')
+kernel('nonempty.P', MI.NonEmpty(), 'P', finder=[(0,), (1,), (2,)])
 _MS = [(n,) for n in (1, 2, 3)]
 _MS2 = [(a, b) for a in (1, 2) for b in (1, 2)]
 for _k, _C in (('pwc', MI.PwcMethod), ('pwl', MI.PwlMethod), ('disc', MI.DiscMethod)):
